@@ -60,7 +60,7 @@ def table_form(chk, P):
     tf = P.cls("atsim.potentials.tableforms", "Cubic_Spline_Table_Form")
     inst = I.instantiate(tf, [W.param("x_data"), W.param("y_data")], {}, None)
     site = tf.lookup("__init__").site()
-    it = inst.attrs.get("_interpolant")
+    it = I.getattr(inst, "interpolant")     # documented property: the scipy object used internally
     ok = isinstance(it, Opaque) and it.path[0] == "extcall" and it.path[1].endswith("InterpolatedUnivariateSpline")
     chk.ob("C18.O1", "the interpolant is scipy's InterpolatedUnivariateSpline", ok, site=site, found=it, expect="InterpolatedUnivariateSpline(...)",
            key="C18.O1|class")
@@ -141,8 +141,8 @@ def xy_parsing(chk, P):
     tup = I.call(tt, [], {"name": Const("t"), "interpolation": Const("cubic_spline"), "x": W.param("XS"), "y": W.param("YS")})
     rec = P.cls("atsim.potentials.tableforms", "Cubic_Spline_Table_Form")
     fac = I.instantiate(tfb, [tup, ClassV(rec)], {}, None)
-    obj = fac.attrs.get("_obj")
-    it = obj.attrs.get("_interpolant") if isinstance(obj, InstV) else None
+    obj = I.getattr(fac, "potential_function")
+    it = I.getattr(obj, "interpolant") if isinstance(obj, InstV) else None
     ok = isinstance(it, Opaque) and it.path[2] == (W.param("XS").key(), W.param("YS").key())
     chk.ob("C18.O2", "Table_Form_Factory passes (tuple.x, tuple.y) as (x_data, y_data)", ok, site=tfb.lookup("__init__").site(), found=it,
            expect="(XS, YS)", key="C18.O2|factory")
